@@ -372,6 +372,36 @@ def meta(ctx: Ctx) -> None:
         a = [unparse(x, 30) for x in c.args]
         ok = len(c.args) >= 2 and "shapes[" in a[1] and kwarg(c, "dtype") is not None and "dtypes[" in unparse(kwarg(c, "dtype")) and kwarg(c, "chunks") is not None
         ctx.ob(g, c, ok, "the storage array is created with shapes[i], dtypes[i] and the chunk size of chunkss[i]", sel="meta:lazy-array")
+    # operations that copy whole blocks (identity block function) declare the *actual* block
+    # sizes of what they copy (`.chunks`), not the nominal chunk size (a ragged last block is
+    # shorter than `.chunksize`)
+    n_ident = 0
+    for f2 in repo.functions():
+        if f2.module.qual.startswith(("cubed.vendor.", "cubed.primitive.", "cubed.runtime.")):
+            continue
+        for c in f2.own_nodes():
+            if not (isinstance(c, ast.Call) and c.args and kwarg(c, "chunkss") is not None):
+                continue
+            fn = c.args[0]
+            is_ident = False
+            for t in repo.resolve_value(fn, f2, f2.module):
+                if t.kind == "def" and t.ref.kind == "lambda" and isinstance(t.ref.node.body, ast.Name) and t.ref.params == [t.ref.node.body.id]:
+                    is_ident = True
+            if not is_ident:
+                continue
+            n_ident += 1
+            fl2, cfg2 = flow_of(repo, f2), cfg_of(f2)
+            ch = kwarg(c, "chunkss")
+            txt = unparse(ch, 200)
+            seen_txt = [txt]
+            for nm in [x for x in ast.walk(ch) if isinstance(x, ast.Name)]:
+                for s_ in fl2.rdefs(nm.id, cfg2.node_of(c)):
+                    if s_.value is not None:
+                        seen_txt.append(unparse(s_.value, 300))
+            alltxt = " ".join(seen_txt)
+            ok = ".chunks" in alltxt and ".chunksize" not in alltxt
+            ctx.ob(f2, c, ok, f"identity copy in {f2.name}: declared chunks are derived from actual block sizes (`.chunks`)" + ("" if ok else f" — derived from `{alltxt[:80]}`: a shorter last block is declared (and written) at full chunk length"), sel="meta:identity-chunks")
+    ctx.need(n_ident >= 1, "no identity-copy operations found")
     # multiple outputs: names, target arrays and Arrays are zipped in construction order
     gb = repo.get(f"{A.OPS}._general_blockwise")
     zs = [n for n in gb.own_nodes() if isinstance(n, ast.Call) and isinstance(n.func, ast.Name) and n.func.id == "zip" and "target_array" in unparse(n)]
